@@ -352,3 +352,27 @@ fn alloc_stats<const N: usize>() {
 fn c05_alloc_by_sample_n2() {
     alloc_stats::<2>()
 }
+
+// @cell props=C19,C05 tier=quick kind=core timeout=1800 mem=16 cls=N
+// @desc SampleCollection::clear() (what a tuning round calls) discards the time samples together with their
+// @desc allocation data: one sample with one allocation record inserted in the real HashMap, then clear()
+#[kani::proof]
+#[kani::unwind(6)]
+#[kani::stub(std::hash::RandomState::new, rs_stub)]
+fn c19_clear_discards_alloc_info() {
+    let mut sc = SampleCollection::default();
+    sc.sample_size = kani::any();
+    sc.time_samples = Vec::from([TimeSample { duration: FineDuration { picos: kani::any() } }]);
+    let mut info = ThreadAllocInfo::new();
+    info.max_count = 1;
+    info.tallies.get_mut(AllocOp::Alloc).count = 1;
+    sc.alloc_info_by_sample.insert(0, info);
+    assert!(sc.alloc_info_by_sample.len() == 1);
+    sc.clear();
+    assert!(sc.time_samples.is_empty());
+    assert!(sc.alloc_info_by_sample.is_empty());
+    assert!(sc.alloc_info_by_sample.get(&0).is_none());
+    assert!(sc.iter_count() == 0);
+    kani::cover!(true);
+    std::mem::forget(sc);
+}
